@@ -1,0 +1,86 @@
+// Verification hooks, compiled only with the cargo feature `tikv_raft_rs_verif`.
+// Nothing here changes behaviour unless a provider is installed by a harness.
+
+//! Re-exports and small helpers for external verification harnesses.
+
+use std::cell::RefCell;
+
+pub use crate::confchange::{restore, MapChangeType};
+pub use crate::quorum::{AckIndexer, AckedIndexer, Index, VoteResult};
+pub use crate::read_only::{ReadIndexStatus, ReadOnly};
+pub use crate::tracker::Configuration;
+/// The crate's hash map type.
+pub type HashMap<K, V> = crate::HashMap<K, V>;
+/// The crate's hash set type.
+pub type HashSet<K> = crate::HashSet<K>;
+
+use crate::{JointConfig, MajorityConfig};
+
+/// Builds a joint configuration from two arbitrary halves.
+pub fn joint_config(incoming: HashSet<u64>, outgoing: HashSet<u64>) -> JointConfig {
+    let mut c = JointConfig::new(incoming);
+    c.outgoing = MajorityConfig::new(outgoing);
+    c
+}
+
+/// Returns (incoming, outgoing) voter ids of a joint configuration, sorted.
+pub fn joint_halves(c: &JointConfig) -> (Vec<u64>, Vec<u64>) {
+    (c.incoming.slice(), c.outgoing.slice())
+}
+
+/// Signature of an election-timeout provider: (node id, min, max) -> value in [min, max).
+pub type ElectionTimeoutProvider = Box<dyn FnMut(u64, usize, usize) -> Option<usize>>;
+
+thread_local! {
+    static ELECTION_TIMEOUT: RefCell<Option<ElectionTimeoutProvider>> = const { RefCell::new(None) };
+}
+
+/// Installs (or removes) the thread-local election-timeout provider.
+pub fn set_election_timeout_provider(p: Option<ElectionTimeoutProvider>) {
+    ELECTION_TIMEOUT.with(|c| *c.borrow_mut() = p);
+}
+
+pub(crate) fn election_timeout_override(id: u64, min: usize, max: usize) -> Option<usize> {
+    ELECTION_TIMEOUT.with(|c| {
+        let mut g = c.borrow_mut();
+        let v = g.as_mut()?(id, min, max)?;
+        if v >= min && v < max {
+            Some(v)
+        } else {
+            None
+        }
+    })
+}
+
+/// Read-only copy of private RawNode / RaftCore fields.
+#[derive(Debug, Clone, PartialEq)]
+pub struct VerifView {
+    /// RawNode.prev_hs
+    pub prev_hs: crate::eraftpb::HardState,
+    /// RawNode.prev_ss
+    pub prev_ss: (u64, crate::StateRole),
+    /// RawNode.max_number
+    pub max_number: u64,
+    /// RawNode.records as (number, last_entry, snapshot)
+    pub records: Vec<(u64, Option<(u64, u64)>, Option<(u64, u64)>)>,
+    /// RawNode.commit_since_index
+    pub commit_since_index: u64,
+    /// RaftCore.heartbeat_elapsed
+    pub heartbeat_elapsed: usize,
+    /// RaftCore.randomized_election_timeout
+    pub randomized_election_timeout: usize,
+    /// UncommittedState fields
+    pub uncommitted_size: usize,
+    /// UncommittedState.max_uncommitted_size
+    pub max_uncommitted_size: usize,
+    /// UncommittedState.last_log_tail_index
+    pub last_log_tail_index: u64,
+    /// RaftCore.promotable
+    pub promotable: bool,
+    /// RaftCore.skip_bcast_commit
+    pub skip_bcast_commit: bool,
+    /// RaftCore.batch_append
+    pub batch_append: bool,
+    /// RaftCore.max_committed_size_per_ready
+    pub max_committed_size_per_ready: u64,
+}
